@@ -24,15 +24,27 @@ func (*Denom).GetLockupPeriods
     inline
 
 // ---- expected keepers of the liquid vesting module (SDK / other modules; assumed contracts)
+// the account store view (acct_iscva / acct_cva / acct_bva, StoredLock ...) is declared in x/vesting/types/zz_contracts_verif.go;
+// same assumed contracts as the vesting module's AccountKeeper
 func (AccountKeeper).GetAccount
     trusted
     params ak, ctx, addr
     ensures isdyn(result, *CVA) ==> dyn(result, *CVA) != nil && dyn(result, *CVA) < $alloc && ValidCVA(*dyn(result, *CVA))
             && (*dyn(result, *CVA)).BaseVestingAccount < $alloc && (*dyn(result, *CVA)).BaseAccount != nil
+    ensures view_cva: isdyn(result, *CVA) ==> cva_addr(*dyn(result, *CVA)) == addr && acct_iscva[addr]
+            && acct_cva[addr] == *dyn(result, *CVA) && acct_bva[addr] == *(dyn(result, *CVA).BaseVestingAccount)
+    ensures view_plain: !isdyn(result, *CVA) ==> !acct_iscva[addr]
 func (AccountKeeper).SetAccount
     trusted
     params ak, ctx, acc
-    pure
+    modifies acct_iscva, acct_cva, acct_bva
+    let A = cva_addr(*dyn(acc, *CVA))
+    ensures cva: isdyn(acc, *CVA) ==> acct_iscva == upd(old(acct_iscva), A, true) && acct_cva == upd(old(acct_cva), A, *dyn(acc, *CVA))
+            && acct_bva == upd(old(acct_bva), A, *(dyn(acc, *CVA).BaseVestingAccount))
+// the vesting keeper behind the expected-keeper interface is x/vesting/keeper.Keeper (verified in the same configuration);
+// callers prove that from their `wiring` precondition (app.go passes app.VestingKeeper)
+func (VestingKeeper).ApplyVestingSchedule
+    dispatch (github.com/haqq-network/haqq/x/vesting/keeper.Keeper).ApplyVestingSchedule
 func (AccountKeeper).GetModuleAddress
     trusted
     params ak, moduleName
